@@ -996,3 +996,119 @@ def own_fresh_fragment(repo, tier="quick"):
         if not problems:
             obs.append(ob_ok(oid, fi, construct="returned fragment graph is freshly built", instance=fi.name, reason="every definition gets a graph of its own"))
     return obs
+
+
+# ---------------------------------------------------------------------------
+# PROV.after-branch-order (C04, C05)
+# ---------------------------------------------------------------------------
+
+def prov_after_branch_order(repo, tier="quick"):
+    """The order of the bond to whatever follows a closed branch is the symbol written directly after the closing brace
+    (after the multiplier number, if there is one), read with a membership test.  The symbol in front of a branch
+    multiplier is the order between the copies of the unit: it goes into the recipe, never into the pending chain order."""
+    from . import tables
+    fi = repo.function("read_cgsmiles:read_cgsmiles")
+    fl, cfg = fi.flow, fi.cfg
+    _, (tname, table, _) = tables.reader_symbol_table(repo)
+    obs = []
+    oid = "PROV.after-branch-order"
+    pattern = ("param", fi.positional_params[0])
+    # the chain order variable: order= of the add_edge(prev, current) in the node copy loop
+    ovar = None
+    for call, nid in fl.calls():
+        if isinstance(call.func, ast.Attribute) and call.func.attr == "add_edge":
+            kw = [k for k in call.keywords if k.arg == "order"]
+            a0 = fl.canon(call.args[0], nid) if call.args else None
+            if kw and isinstance(kw[0].value, ast.Name) and a0 is not None and a0[0] != "sub":
+                ovar = kw[0].value.id
+    need(ovar is not None, "cannot identify the pending chain order variable in read_cgsmiles", fi)
+    # the block handling a closed branch: the if whose body pops the branch anchor stack
+    block = None
+    for n in cfg.nodes:
+        if n.kind == "if" and any(isinstance(x, ast.Call) and isinstance(x.func, ast.Attribute) and x.func.attr == "pop" for st in n.ast.body[:3] for x in ast.walk(st)):
+            block = n
+    need(block is not None, "cannot find the branch-closing block in read_cgsmiles", fi)
+    inside = _arm_nodes_of(cfg, block)
+    defs = [d for d in fl.defs if d.var == ovar and d.kind in ("assign", "aug") and d.node in inside]
+    if not defs:
+        return [ob_fail(oid, fi, block.ast, construct="no assignment of %s after a closed branch" % ovar, instance="present",
+                        reason="a bond order symbol written after a branch brace is never read")]
+    for d in defs:
+        v = fl.canon(d.value, d.node) if d.kind == "assign" else None
+        ok = False
+        why = "%s = %s" % (ovar, show(v) if v is not None else "<augmented>")
+        idx = None
+        if v is not None and v[0] == "sub" and v[1][0] == "dict" and v[2][0] == "sub" and v[2][1] == pattern:
+            idx = v[2][2]
+            # a positive membership guard on the same character
+            gs = guards_of(fi, d.node)
+            member = False
+            for test, pol, gid in gs:
+                conj = test.values if isinstance(test, ast.BoolOp) and isinstance(test.op, ast.And) and pol else [test]
+                for cj in conj:
+                    t = fl.canon(cj, gid)
+                    if pol and t[0] == "cmp" and t[1] == ("in",) and t[2][0] == ("sub", pattern, idx) and t[2][1][0] == "dict":
+                        member = True
+            if not member:
+                why = "the symbol at %s is looked up without the membership test `pattern[i] in <symbol table>` on the same position" % show(idx)
+            else:
+                # the character must not be the one in front of a multiplier bar
+                nxt = ("binop", "+", idx, ("const", 1))
+                bar_pos = False
+                bar_neg = False
+                for test, pol, gid in gs:
+                    for sub in ast.walk(test):
+                        if isinstance(sub, ast.Compare) and len(sub.ops) == 1 and isinstance(sub.ops[0], (ast.Eq, ast.NotEq)) and \
+                                isinstance(sub.comparators[0], ast.Constant) and sub.comparators[0].value == "|" and id(sub) in cfg.owner:
+                            lt = fl.canon(sub.left, gid)
+                            if lt[0] == "sub" and lt[1] == pattern and _same_index(lt[2], idx, 1):
+                                positive = pol if isinstance(sub.ops[0], ast.Eq) else not pol
+                                # inside an `or` with pol False every disjunct is false; inside a plain test polarity applies
+                                if positive and not (isinstance(test, ast.BoolOp) and isinstance(test.op, ast.Or)):
+                                    bar_pos = True
+                                if not pol:
+                                    bar_neg = True
+                # is the position "directly after the closing brace"?  (index = position of ')' + 1)
+                after_brace = False
+                base = idx
+                if base[0] == "binop" and base[1] == "+" and base[3] == ("const", 1):
+                    c = is_call(base[2], "_find_next_character")
+                    if c and len(c[0]) >= 2 and c[0][1] in (("list", (("const", ")"),)), ("const", ")"), ("tuple", (("const", ")"),))):
+                        after_brace = True
+                if bar_pos:
+                    why = "the symbol at %s stands in front of a branch multiplier: it is the order between the copies, not of the following bond" % show(idx)
+                elif after_brace and not bar_neg:
+                    why = ("the symbol directly after the brace is taken as the order of the following bond without excluding that a multiplier follows it "
+                           "(`)=|n`: then it is the order between the copies)")
+                else:
+                    ok = True
+        (obs.append(ob_ok(oid, fi, d.ast, construct="%s = table[pattern[i]] if pattern[i] in table, i right after the brace / the multiplier" % ovar, instance="source",
+                          reason="the symbol after the branch is the order of the next bond")) if ok else
+         obs.append(ob_fail(oid, fi, d.ast, construct=why, instance="source",
+                            reason="the order of the bond that follows a closed branch is not read from the symbol directly after the brace (or after the multiplier) with a membership test")))
+    return obs
+
+
+def _same_index(t, base, offset):
+    """t == base + offset for linear index terms (base may itself be x + c)."""
+    def lin(x):
+        if x[0] == "binop" and x[1] == "+" and x[3][0] == "const" and isinstance(x[3][1], int):
+            b, c = lin(x[2])
+            return b, c + x[3][1]
+        if x[0] == "binop" and x[1] == "-" and x[3][0] == "const" and isinstance(x[3][1], int):
+            b, c = lin(x[2])
+            return b, c - x[3][1]
+        return x, 0
+    b1, c1 = lin(t)
+    b2, c2 = lin(base)
+    return b1 == b2 and c1 == c2 + offset
+
+
+def _arm_nodes_of(cfg, ifnode):
+    out = set()
+    for st in ifnode.ast.body + ifnode.ast.orelse:
+        for sub in ast.walk(st):
+            x = cfg.node_of_stmt.get(id(sub))
+            if x is not None:
+                out.add(x)
+    return out
